@@ -243,6 +243,7 @@ MonC07(S) ==
        ELSE
         (IF \/ (Len(cmds) = 2 /\ cmds[1].kind = "query" /\ cmds[2].kind = "dump")
             \/ (Len(cmds) = 1 /\ cmds[1].kind = "query" /\ ~cmds[1].ok)       \* the SET was rejected: nothing may follow
+            \/ (Len(cmds) = 1 /\ cmds[1].kind = "query" /\ Plan(S, a).connfault = "set_then_reset")   \* the master dropped the connection itself
          THEN {} ELSE {Z("C07.sequence", S, "commands are not exactly <<SET query, one dump request>>", a, Len(cmds))}) \cup
         (IF \E i \in 1..Len(cmds) : cmds[i].kind = "query" /\ ~cmds[i].ok /\ \E j \in 1..Len(cmds) : j > i /\ cmds[j].kind = "dump"
          THEN {Z("C07.checksum-first", S, "dump requested although SET @master_binlog_checksum was rejected by the master", a, 0)} ELSE {}) \cup
